@@ -203,8 +203,9 @@ class C03(Spec):
             'types); every insertion order of n<=6 keys followed by a removal order; large trees (hash dumps). After every mutating op '
             'the whole concrete tree is dumped and compared with the model, and the C oracle checks map contents, KeyError, iteration '
             'both ways, order, root colour, red-red, black heights, parent links, node count and the height bound. '
-            'non-trivial item = a set or rem that was executed on a tree holding >= 3 bindings afterwards or before; distinct = distinct '
-            '(operation, resulting concrete tree) pair.')
+            'non-trivial item = a successful set or rem whose resulting tree holds >= 2 bindings (so that a fix-up, a rotation or a '
+            'recolouring is possible); distinct = distinct (operation text, resulting concrete tree dump) pair. The evidence also '
+            'lists how often each branch of Tree_Set_Fix / Tree_Rem_Fix was taken (branch_* counters, computed by the driver).')
     trusted_base = ('harness/h_tree.c + lean/Driver/Tree.lean (the model/implementation correspondence is testing: identical concrete '
                     'tree after every operation)',
                     'parent pointers are represented by the zipper path; parent(child)==node is checked on the C side on every dump',
